@@ -18,7 +18,8 @@ from .common import parallel_map
 
 RULE = ("cases = (declared graph as in C13 with extra tags, target product, recursive, check, force, products set up in "
         "the environment of the command: none in three quarters of the cases, else one or two, mostly from the target's closure; "
-        "database writable or, in 8 % of the cases, not); every product "
+        "database writable or, in 8 % of the cases, not; the version given literally or (non-recursive -N removals only) by `-t TAG product`; plus "
+        "`eups remove -t TAG` which takes a tag off every product); every product "
         "of a graph is a target, flag combinations are sampled so that each graph contributes about 18 removals; plus an "
         "exhaustive family (4 products, every subset of 2 candidate lines per table: 256 graphs x every target x flags; "
         "all in the thorough tier, 6 graphs otherwise); a "
@@ -50,9 +51,14 @@ def gen_cases(rng, g, per_graph=18, setups=None):
     """[name, version, recursive, check, force, set-up products, read-only database]; a quarter of the cases run with
     one or two declared products set up in the environment of the command (preferably inside the dependency closure
     of the target), 8 % with a database the user may not write; `setups` = explicit list of (set-up products, read-only)."""
-    allc = [[p["name"], p["version"], r, c, f, [], False] for p in g["products"] for r in (False, True) for c in (False, True) for f in (False, True)]
+    allc = [[p["name"], p["version"], r, c, f, [], False, "version"] for p in g["products"] for r in (False, True) for c in (False, True) for f in (False, True)]
     if setups is not None:
-        return sorted([c[:5] + [su[0], su[1]] for c in allc for su in setups], key=repr)
+        out = [c[:5] + [su[0], su[1], "version"] for c in allc for su in setups]
+        tags = sorted({t for p in g["products"] for t in p.get("tags", [])})
+        out += [["", "", False, False, False, [], False, "untag:" + t] for t in tags + ["beta"]]
+        out += [[p["name"], p["version"], False, False, f, [], False, "tag:" + t] for p in g["products"] for f in (False, True)
+                for t in p.get("tags", []) + ["beta"]]
+        return sorted(out, key=repr)
     rng.shuffle(allc)
     out = allc[:per_graph]
     R = c13.Resolved(g)
@@ -70,6 +76,14 @@ def gen_cases(rng, g, per_graph=18, setups=None):
             c[5] = sorted(su)
         if rng.random() < 0.08:
             c[6] = True                 # the database may not be written by the user of the command
+        if not c[2] and not c[3] and rng.random() < 0.4:
+            # `eups remove -N -t TAG product`: the version is named by a tag (one the product has, or does not have).
+            # Only without -R and with -N: a tag on the command line also goes to the front of the VRO and overrides the
+            # versions written in table files, which is outside the resolution rule modelled here (C03's subject).
+            mine = [p.get("tags", []) for p in g["products"] if p["name"] == c[0] and p["version"] == c[1]][0]
+            c[7] = "tag:" + (rng.choice(mine) if (mine and rng.random() < 0.8) else rng.choice(["current", "beta"]))
+    if rng.random() < 0.5:
+        out.append(["", "", False, False, False, [], False, "untag:" + rng.choice(["current", "beta", "beta"])])
     return sorted(out, key=repr)
 
 
@@ -77,7 +91,7 @@ def gen_cases(rng, g, per_graph=18, setups=None):
 
 def run_impl(job):
     graph, case = job
-    name, version, rec, check, force, setup, ro = case
+    name, version, rec, check, force, setup, ro, how = case
     root = common.scratch("c14")
     devnull = os.open(os.devnull, os.O_WRONLY)
     os.dup2(devnull, 1)
@@ -88,11 +102,19 @@ def run_impl(job):
         if ro:
             L.readonly_database(s)
         before, dbb = L.snapshot(s), L.db_listing(s)
-        args = ["remove"] + (["-R"] if rec else []) + ([] if check else ["-N"]) + (["-F"] if force else []) + [name, version]
+        flags = (["-R"] if rec else []) + ([] if check else ["-N"]) + (["-F"] if force else [])
+        if how == "version":
+            args = ["remove"] + flags + [name, version]
+        elif how.startswith("tag:"):
+            args = ["remove"] + flags + ["-t", how[4:], name]
+        else:
+            args = ["remove", "-t", how[6:]]
         r = L.run_cli(args, record=())
         after, dba = L.snapshot(s), L.db_listing(s)
         if r["error"] is None and r["rc"] == 0:
             outcome = "ok"
+        elif r["error"] is None and r["rc"] == 2 and how.startswith("tag:"):
+            outcome = "NoSuchTag"
         else:
             outcome = r["error"] or "rc=%s" % r["rc"]
         return {"out": outcome, "before": before, "after": after, "dbb": dbb, "dba": dba}
@@ -117,7 +139,28 @@ def canon_model(a):
 # ---- oracle (ii) -----------------------------------------------------------------------------------------
 
 def oracle(R, graph, case, io_, closures):
-    name, version, rec, check, force, setup, ro = case
+    name, version, rec, check, force, setup, ro, how = case
+    if how.startswith("untag:"):
+        # the tag is taken off every product; no declaration, no directory, no other tag is touched
+        t = how[6:]
+        if io_["out"] != "ok":
+            yield ("no_error", None, "untagging raised %s" % io_["out"])
+        if io_["dba"]["decl"] != io_["dbb"]["decl"]:
+            yield ("frame", None, "untagging changed the declarations")
+        if sorted(io_["dba"]["tags"]) != sorted(x for x in io_["dbb"]["tags"] if x[1] != t):
+            yield ("untag_exact", None, "tags after %s" % (io_["dba"]["tags"],))
+        for path, h in io_["before"].items():
+            if not (path.startswith("ups_db/") and path.endswith("/%s.chain" % t)) and not path.endswith("/") and io_["after"].get(path) != h:
+                yield ("frame", None, "%s was changed or deleted" % path)
+                break
+        return
+    if how.startswith("tag:"):
+        tagged = [x[2] for x in io_["dbb"]["tags"] if x[0] == name and x[1] == how[4:]]
+        if not tagged:
+            if io_["out"] != "NoSuchTag" or io_["after"] != io_["before"]:
+                yield ("tag_names_no_version", None, "outcome %s for a tag the product does not have" % io_["out"])
+            return
+        version = tagged[0]            # the command is to behave as `remove product <that version>`
     top = (name, version, True)
     out = io_["out"]
     before, after = io_["before"], io_["after"]
@@ -276,7 +319,7 @@ def evaluate(ctx, graphs, per_graph=18, all_cases=False):
             ci, cm = canon_impl(io_), canon_model(a)
             inp = {"graph": g, "case": case}
             top = (case[0], case[1], True)
-            nontriv = bool(R.succ.get(top))
+            nontriv = bool(R.succ.get(top)) or case[7].startswith("untag:")
             ctx.case(key=[g["products"], case], nontrivial=nontriv,
                      sample={"input": inp, "impl": ci} if ctx.evaluations % 1009 == 0 else None)
             ctx.hist("%s%s%s:%s" % ("R" if case[2] else "-", "C" if case[3] else "-", "F" if case[4] else "-", io_["out"]))
@@ -284,6 +327,8 @@ def evaluate(ctx, graphs, per_graph=18, all_cases=False):
                 ctx.hist("setup_in_env:%s" % io_["out"])
             if case[6]:
                 ctx.hist("readonly_db:%s" % io_["out"])
+            if case[7] != "version":
+                ctx.hist("form=%s:%s" % (case[7].split(":")[0], io_["out"]))
             if top not in users_of:
                 mine = {t for t in closures(top)[0] if t[2]}
                 others = [k for k in R.decl if k != (case[0], case[1])]
